@@ -1225,7 +1225,11 @@ func expand(s *CaseSpec, maxLen int) []*CaseSpec {
 	}
 	sp := s.Events[0].Conn
 	depth := maxLen
-	if !strings.HasPrefix(s.Class, "tree/none/") {
+	// full depth without an authorizer for the three most different clients and
+	// with the per-user authorizer for the fully honest one; one level less elsewhere
+	deep := map[string]bool{"tree/none/honest-auth-enc": true, "tree/none/honest-unauth-enc": true,
+		"tree/none/scripted-auth-omitkey-optional": true, "tree/users/honest-auth-enc": true}
+	if !deep[s.Class] {
 		depth = maxLen - 1
 	}
 	if len(sp.Cmds) >= depth {
